@@ -265,7 +265,9 @@ pub fn records(rng: &mut Rng, cfg: &Cfg) -> Vec<Rec> {
             let n = *rng.pick(&[1usize, 2, 3, 4, 100, 200, 350, 465, 900, 999]);
             let words = ["RESOLUTION.", "1.80", "ANGSTROMS.", "THE", "STRUCTURE", "WAS", "REFINED"];
             let t: Vec<&str> = (0..rng.below(6)).map(|_| *rng.pick(&words)).collect();
-            out.push(Rec::Remark(n, t.join(" ")));
+            // remark text is free text: it may be indented (tables, continuation lines), and the indentation is part of it
+            let indent = if rng.chance(1, 3) { " ".repeat(1 + rng.below(4)) } else { String::new() };
+            out.push(Rec::Remark(n, format!("{indent}{}", t.join(" "))));
         }
         annot_at = out.len();
         if rng.chance(2, 3) {
